@@ -307,6 +307,18 @@ func limitSleepShape(c *Ctx, lr *limitRoles, rule string, strict bool) {
 			}
 			return out
 		}
+		// the value of a product call used in place: what the callee can return
+		if s.Op == "extract" && len(s.Args) == 1 && s.Args[0].Op == "call" {
+			if call, ok := s.Args[0].V.(*ssa.Call); ok {
+				if cal := p.Callee(call); cal != nil && p.IsProduct(cal) {
+					var idx int
+					fmt.Sscanf(s.Name, "%d", &idx)
+					if rs := p.resultSyms(cal, idx); len(rs) > 0 {
+						return rs
+					}
+				}
+			}
+		}
 		return []*Sym{s}
 	}
 	isInterval := func(s *Sym) bool {
